@@ -470,3 +470,65 @@ Example C06_rs_string_nonvacuous :
    flags fin = 0%N /\
    exists r', ref_main P1 P2 P3 P4 [] 20 20 (abs (init_st file sc true)) = Some r' /\ r_out r' = out fin /\ r_cur r' = 6).
 Proof. vm_compute. repeat split. eexists. repeat split. Qed.
+
+(* ---------- the register model on the C TEXT of reg.c (TrReg.v, TrRegEx.v) ----------
+   ExDefs.reg_put / reg_shift / reg_getraw (the association list of the ex model; every put of ex is line-wise) against the
+   CLite terms tools/c2clite.py generates from reg_getraw, reg_get, reg_putraw, reg_put of /repo/reg.c (GenCFuncs.v) and the
+   tables `static char *bufs[256]; static int lnmode[256];`.  TrReg.regs_at m pb lb R: the memory m represents a register
+   file R (RegDefs.v: text and line-wise flag under every name 0..255; cell c of bufs NULL or pointing to a live heap block with
+   the text, pairwise distinct blocks).  TrRegEx.ex_abs r R: the association list r holds the same texts as R under every name
+   0..255.  C06_tr_reg_put: from EVERY such memory, for every name 0..255, every terminated text in a block that is no
+   register's and every flag != 0 the call reg_put(c, s, ln) returns (no access outside a block, no use of a freed block, no
+   double free) and the memory afterwards represents an R' with ex_abs (reg_put r c s) R'; TrReg.fr: replaced texts freed, every
+   other block unchanged, nothing leaks but the cell of the local i_ln.  C06_tr_numbered_push composes it with
+   C06_numbered_push: read off the memory after the call, register 1 holds s and register i+1 the old text of register i (an unset
+   register i leaves i+1 alone) -- with the loop of the C text turned upward (the seeded rewrite) TrReg.put_loop_ok has no proof. *)
+From NV Require CLiteTac TrReg TrRegEx RegDefs.
+
+Theorem C06_tr_reg_put : forall m pb lb R r c bs (t : bytes) (o : nat) ln d fuel,
+  TrReg.regs_at m pb lb R -> TrRegEx.ex_abs r R -> (0 <= c < 256)%Z -> CLiteProps.str_at m bs t -> nonul t -> (o <= length t)%nat ->
+  bs <> GenCFuncs.G_reg__bufs -> bs <> GenCFuncs.G_lnmode ->
+  (forall k o', (k < 256)%nat -> TrReg.cellp pb k <> CLite.VPtr bs o') ->
+  CLiteTac.int_ok ln -> ln <> 0%Z -> TrReg.str_fits (TrReg.pre_of R c ++ skipn o t) -> (9 <= fuel)%nat ->
+  exists m' pb' lb' R',
+    CLite.callf GenCFuncs.cprog fuel (S (S (S d))) GenCFuncs.F_reg_put [CLite.VInt c; CLite.VPtr bs (Z.of_nat o); CLite.VInt ln] m
+    = CLite.Ok (CLite.VUndef, m') /\
+    TrReg.regs_at m' pb' lb' R' /\ TrRegEx.ex_abs (reg_put r (Z.to_N c) (skipn o t)) R' /\
+    TrReg.fr (length m) m pb m' pb' /\ (exists v, nth_error m' (length m) = Some [v]).
+Proof. exact TrRegEx.tr_reg_put_ex. Qed.
+Print Assumptions C06_tr_reg_put.
+
+(* the numbered registers after the call, read through the representation: the simultaneous assignment of C06_numbered_push *)
+Theorem C06_tr_numbered_push : forall m pb lb R r c bs (t : bytes) (o : nat) ln d fuel,
+  TrReg.regs_at m pb lb R -> TrRegEx.ex_abs r R -> (0 <= c < 256)%Z -> pushes (Z.to_N c) = true ->
+  CLiteProps.str_at m bs t -> nonul t -> (o <= length t)%nat ->
+  bs <> GenCFuncs.G_reg__bufs -> bs <> GenCFuncs.G_lnmode ->
+  (forall k o', (k < 256)%nat -> TrReg.cellp pb k <> CLite.VPtr bs o') ->
+  CLiteTac.int_ok ln -> ln <> 0%Z -> TrReg.str_fits (TrReg.pre_of R c ++ skipn o t) -> (9 <= fuel)%nat ->
+  exists m' pb' lb' R',
+    CLite.callf GenCFuncs.cprog fuel (S (S (S d))) GenCFuncs.F_reg_put [CLite.VInt c; CLite.VPtr bs (Z.of_nat o); CLite.VInt ln] m
+    = CLite.Ok (CLite.VUndef, m') /\
+    TrReg.regs_at m' pb' lb' R' /\
+    forall i, (1 <= i <= 9)%nat -> option_map fst (R' (numkey i)) = num_after_push (nreg r) (skipn o t) i.
+Proof. exact TrRegEx.tr_numbered_push. Qed.
+Print Assumptions C06_tr_numbered_push.
+
+(* non-vacuity: the zero-initialised globals represent the empty register file, the empty association list holds the same
+   texts; and the translated reg_put RUNS on the initial memory followed by the texts "one\n" "two\n" "three\n": after the
+   three line-wise stores (unnamed, a, unnamed) register 1 holds "three\n", 2 "two\n", 3 "one\n", 4 is unset, the unnamed
+   register holds "three\n" -- what ExDefs.reg_put gives on the empty list *)
+Example C06_tr_reg_nonvacuous :
+  TrReg.regs_at GenCFuncs.cglobals GenCFuncs.gb_reg__bufs (repeat 0%Z 256) RegDefs.regs0 /\ TrRegEx.ex_abs [] RegDefs.regs0 /\
+  let one := [111; 110; 101; 10]%N in let two := [116; 119; 111; 10]%N in let three := [116; 104; 114; 101; 101; 10]%N in
+  let blk (s : bytes) := CLite.cstr_block (map Z.of_N s) in
+  let g := length GenCFuncs.cglobals in
+  let m0 := (GenCFuncs.cglobals ++ [blk one; blk two; blk three])%list in
+  let put c b m := match m with
+                   | CLite.Ok (_, m) => CLite.callf GenCFuncs.cprog 12 4 GenCFuncs.F_reg_put [CLite.VInt c; CLite.VPtr b 0%Z; CLite.VInt 1%Z] m
+                   | e => e end in
+  let r3 := reg_put (reg_put (reg_put [] 0%N one) 97%N two) 0%N three in
+  match put 0%Z (g + 2)%nat (put 97%Z (g + 1)%nat (put 0%Z g (CLite.Ok (CLite.VUndef, m0)))) with
+  | CLite.Ok (_, m3) => map (TrReg.reg_text m3) [49; 50; 51; 52; 0]%nat
+  | CLite.Err _ => []
+  end = map (fun k => option_map blk (reg_getraw r3 k)) [49; 50; 51; 52; 0]%N.
+Proof. split; [exact TrReg.regs_at_init|split; [intros k _; reflexivity|vm_compute; reflexivity]]. Qed.
